@@ -364,6 +364,9 @@ func (s *State) fsqrt(x *Term) *Term {
 			}
 		}
 	}
+	if r, ok := s.sqrtMemo[x]; ok {
+		return r // the same radicand has the same root
+	}
 	if !sumOfSquares(x, 0) {
 		nonneg := c.Le(s.xzero(x), x)
 		s.checkNonFinite(nonneg, "sqrt of negative value")
@@ -376,6 +379,10 @@ func (s *State) fsqrt(x *Term) *Term {
 		s.sqrtOf = map[*Term]*Term{}
 	}
 	s.sqrtOf[r] = x
+	if s.sqrtMemo == nil {
+		s.sqrtMemo = map[*Term]*Term{}
+	}
+	s.sqrtMemo[x] = r
 	n := &FInfo{exact: false, scale: -1}
 	if fi := s.finfo[x]; fi != nil && fi.hi != nil {
 		// sqrt(hi) <= hi+1
